@@ -400,6 +400,12 @@ def replay(body):
     if sc.get("kind") == "fresh-key":
         print("in-process check of three successive keys: re-run /venv/bin/python /verif/check.py C10 quick")
         return 2
+    if body.get("family") in ("C10:replies", "C10:requests") and ("_exp" in sc or "_kind" in sc):
+        def reply_o(sc, tr, extra):
+            sc.setdefault("_proto", None)
+            sc.setdefault("_ext", False)
+            return [c for c in reply_oracle(sc, tr, extra) if not known(sc, c)]
+        return fam.replay_generic(body, {"C10:replies": reply_o, "C10:requests": request_oracle})
     r = simnet.run_impl(sc)
     tr = simnet.canon_trace(r.trace)
     extra = dict(sock_closed=r.sock.closed if r.sock else None, escaped=r.escaped, request=r.request)
